@@ -77,14 +77,16 @@ def t_unmask(E):
     E.refutable("mask.algebra.unmask", E.eq(r, m.fields["value"]))
 
 
-@task("mask.algebra.or", props=["C19", "C23"], functions=FUNCS)
+@task("mask.algebra.or", props=["C19", "C23", "C35"], functions=FUNCS)
 def t_or(E):
     z3 = E.z3
     a, b = mk(E, "a"), mk(E, "b")
     fa, fb = a.fields["flag"].t, b.fields["flag"].t
     r = E.method(a, "__or__", b)
     E.prove("C19.Mask.or.truth_table", same_obs(E, r, z3.Or(fa, fb),
-                                                SReal(z3.If(fa, a.fields["value"].t, b.fields["value"].t))))
+                                                SReal(z3.If(fa, a.fields["value"].t, b.fields["value"].t))),
+            # (C35: a masked constraint laid over another constraint at the same address is merged with Mask.__or__)
+            also=["C35"])
     E.refutable("mask.algebra.or", same_obs(E, r, z3.Or(fa, fb), b.fields["value"]))
     idx = E.method(a, "_or_idx", a.fields["flag"], b.fields["flag"])
     E.prove("C19.Mask._or_idx.table", E.z(idx.t if not isinstance(idx, int) else idx) ==
